@@ -81,7 +81,7 @@ def gen_cases(rng, n):
                 beta = [b % 1024 for b in beta]
         cases.append({"fn": "assign", "cost": cost, "beta": beta, "beta_form": form, "scale": s,
                       "table_dtype": tdt, "vector_dtype": vdt,
-                      "order": rng.choice(["C", "C", "F"]), "readonly": rng.random() < 0.3,
+                      "order": rng.choice(["C", "C", "F", "S"]), "readonly": rng.random() < 0.3,
                       "T": T, "K": K})
     return cases
 
